@@ -203,9 +203,18 @@ def r174(ctx) -> None:
     real = model.real_nodes(f, cfg)
     for cl in clears:
         # the test of the stored mark
-        tests = [t for t in cfg.nodes if t.kind == 'test' and any(
-            a.endswith('.recent') and pol for a, pol in
-            guard_atoms(t.stmt.test)) and cfg.controlled_by(cl, t, 't')]
+        # (either polarity: `if m.recent: clear` / `if not m.recent:
+        # continue; clear`)
+        tests = []
+        for t in cfg.nodes:
+            if t.kind != 'test':
+                continue
+            for edge, atoms in (('t', guard_atoms(t.stmt.test)),
+                                ('f', guard_atoms(ast.UnaryOp(
+                                    ast.Not(), t.stmt.test)))):
+                if any(a.endswith('.recent') and pol for a, pol in atoms) \
+                        and cfg.controlled_by(cl, t, edge):
+                    tests.append(t)
         key = 'claim_recent: clear is paired with add_recent'
         loop_heads = [n for n in cfg.nodes if n.kind == 'for_iter']
         ok = bool(tests)
@@ -213,7 +222,8 @@ def r174(ctx) -> None:
         # or the add precedes the clear under the same test
         after = cfg.reach([cl], avoid=adds, labels=NORMAL)
         add_before = any(cfg.dominated_by(cl, [a]) and any(
-            cfg.controlled_by(a, t, 't') for t in tests) for a in adds)
+            cfg.controlled_by(a, t, 't') or cfg.controlled_by(a, t, 'f')
+            for t in tests) for a in adds)
         paired = add_before or not (set(loop_heads) & after
                                     or cfg.exit in after)
         R.check(ok and paired, f, cl.stmt, key,
